@@ -211,3 +211,10 @@ def _new_timer(eng, fr, st, name, args, rtypes, ins):
 @model("(error).Error")
 def _error_error(eng, fr, st, name, args, rtypes, ins):
     return [(st, uf("m.Error", [Ref], Str)(args[0].ref))]
+
+
+@model("github.com/ipfs/go-log/v2.Logger")
+def _logger(eng, fr, st, name, args, rtypes, ins):
+    v = st.fresh(rtypes[0], "logger")
+    st.assume(z3.Not(to_bool(v.nil)))
+    return [(st, v)]
